@@ -32,7 +32,14 @@ import (
 	"time"
 )
 
-const repoDir = "/repo"
+// repoDir is the tree under test: /repo. VERIF_REPO overrides it for
+// background experiments on a snapshot (the registered commands never set it).
+var repoDir = func() string {
+	if d := os.Getenv("VERIF_REPO"); d != "" {
+		return d
+	}
+	return "/repo"
+}()
 
 // verifDir is the checkout of the verification machinery the command runs
 // in: the working directory when it holds go.mod of module verifsim (so that
